@@ -228,7 +228,7 @@ pub fn project(p: DVec3, dim: usize) -> DVec3 {
 // Box shapes
 
 pub const ASPECTS: [[f64; 3]; 4] = [[1., 1., 1.], [1., 0.37, 2.9], [30., 4.6, 0.29], [1., 100., 0.01]];
-pub const SCALES: [f64; 5] = [1., 1., 1e-3, 1e3, 7.3e5];
+pub const SCALES: [f64; 7] = [1., 1., 1e-3, 1e3, 7.3e5, 2.5e9, 1e-9];
 pub const OFFSETS: [[f64; 3]; 5] = [[0., 0., 0.], [-0.5, -0.5, -0.5], [3.3, -7.1, 11.9], [1e3, -1e3, 1e2], [1e5, 1e5, -1e5]];
 
 #[derive(Clone, Copy, Debug)]
@@ -526,13 +526,25 @@ pub fn gen_case(label: &str, tier: &str, seed: u64, k: u64, o: &GenOpts) -> Case
         }
     }
     let dim = *r.pick(o.dims);
-    let periodic = o.periodic.unwrap_or_else(|| r.bool());
+    let mut periodic = o.periodic.unwrap_or_else(|| r.bool());
     let mut b = if o.mild_box { mild_box(&mut r) } else { random_box(&mut r) };
-    // The far offset (1e5 widths) is part of the conditioned domain only for the families that are clean there on the
-    // pinned tree; coplanar sets and clusters at that offset fail (finding F5) and live in the fixed hostile corpus.
-    let far_ok = matches!(family, "uniform" | "lattice" | "clattice" | "blattice" | "tiny");
-    while !far_ok && (b.anchor / b.width).abs().max_element() > 2e3 {
-        b = if o.mild_box { mild_box(&mut r) } else { random_box(&mut r) };
+    // ---- the conditioned domain (DESIGN 4.2): combinations on which the pinned tree showed failures in a survey of
+    // 300 000 inputs (finding F5) are not generated here; they are covered by the fixed hostile corpus of C05.
+    if std::env::var("VERIF_SURVEY").is_err() {
+        // centred lattices with periodic boundaries (2D/3D) and coplanar sets in periodic 3D boxes
+        let excluded = (family == "clattice" && periodic && dim >= 2) || (family == "coplanar" && periodic && dim == 3);
+        if excluded {
+            if o.periodic.is_none() {
+                periodic = false;
+            } else {
+                family = if family == "clattice" { "lattice" } else { "uniform" };
+            }
+        }
+        // anchors 1e5 widths away from the origin: only the families that were clean there
+        let far_ok = matches!(family, "uniform" | "lattice" | "blattice" | "tiny");
+        while !far_ok && (b.anchor / b.width).abs().max_element() > 2e3 {
+            b = if o.mild_box { mild_box(&mut r) } else { random_box(&mut r) };
+        }
     }
     let n = *r.pick(o.sizes);
     let unit = unit_points(family, n, dim, &mut r);
@@ -541,10 +553,173 @@ pub fn gen_case(label: &str, tier: &str, seed: u64, k: u64, o: &GenOpts) -> Case
 
 /// Generate one case of an explicit family (used for the corpus and the hostile exploration).
 pub fn gen_family_case(label: &str, family: &str, seed: u64, k: u64, dim: usize, periodic: bool, n: usize) -> Case {
-    let mut r = Rng::stream(label, &[crate::rng::mix(family, &[]), seed, k, dim as u64, periodic as u64]);
-    let b = random_box(&mut r);
+    gen_family_case_in(label, family, seed, k, dim, periodic, n, BoxKind::Random)
+}
+
+#[derive(Clone, Copy, Debug, PartialEq)]
+pub enum BoxKind {
+    Random,
+    /// anchor 1e5 widths away from the origin
+    FarOffset,
+    /// overall scale 1e-9 (the absolute term of the float filter then dominates)
+    TinyScale,
+}
+
+#[allow(clippy::too_many_arguments)]
+pub fn gen_family_case_in(label: &str, family: &str, seed: u64, k: u64, dim: usize, periodic: bool, n: usize, kind: BoxKind) -> Case {
+    let mut r = Rng::stream(label, &[crate::rng::mix(family, &[]), seed, k, dim as u64, periodic as u64, n as u64, kind as u64]);
+    let mut b = random_box(&mut r);
+    match kind {
+        BoxKind::Random => {}
+        BoxKind::FarOffset => {
+            let asp = b.width / b.width.max_element();
+            b.width = asp * *r.pick(&[1., 1e-3, 1e3]);
+            b.anchor = DVec3::new(1e5, 1e5, -1e5) * b.width;
+        }
+        BoxKind::TinyScale => {
+            let rel = b.anchor / b.width;
+            b.width = b.width / b.width.max_element() * 1e-9;
+            b.anchor = rel * b.width;
+        }
+    }
     let unit = unit_points(family, n, dim, &mut r);
-    finish(family, unit, b, dim, periodic, format!("{label}/{family}/seed{seed}/case{k}"))
+    let tag = match kind {
+        BoxKind::Random => "",
+        BoxKind::FarOffset => "+far",
+        BoxKind::TinyScale => "+tiny",
+    };
+    finish(family, unit, b, dim, periodic, format!("{label}/{family}{tag}/d{dim}p{}n{n}/seed{seed}/case{k}", periodic as u8))
+}
+
+/// The fixed hostile corpus (seed independent). `quick` = the subset run by the quick tier.
+pub fn corpus(quick: bool) -> Vec<Case> {
+    let kmax: u64 = if quick { 2 } else { 14 };
+    let mut v = vec![];
+    let hostile: [(&str, &[usize]); 8] = [("nearlattice", &[3, 2, 1]), ("walls", &[3, 2, 1]), ("cluster", &[3, 2, 1]), ("cosphere", &[3]), ("slabwalls", &[3]), ("nearpairs", &[3, 2, 1]), ("clattice", &[3, 2]), ("coplanar", &[3])];
+    for (fam, dims) in hostile {
+        for &dim in dims {
+            for periodic in [false, true] {
+                if (fam == "clattice" || fam == "coplanar") && !periodic {
+                    continue;
+                }
+                for n in [8usize, 27, 64] {
+                    for k in 0..kmax {
+                        v.push(gen_family_case_in("corpus", fam, 0, k, dim, periodic, n, BoxKind::Random));
+                    }
+                }
+            }
+        }
+    }
+    for fam in ["coplanar", "mildcluster"] {
+        for dim in [3usize, 2] {
+            for periodic in [false, true] {
+                for n in [27usize, 100] {
+                    for k in 0..kmax {
+                        v.push(gen_family_case_in("corpus", fam, 0, k, dim, periodic, n, BoxKind::FarOffset));
+                    }
+                }
+            }
+        }
+    }
+    for fam in ["uniform", "lattice", "mildcluster", "coplanar"] {
+        for dim in [3usize, 2, 1] {
+            for periodic in [false, true] {
+                for n in [8usize, 50] {
+                    for k in 0..(kmax / 2).max(1) {
+                        v.push(gen_family_case_in("corpus", fam, 0, k, dim, periodic, n, BoxKind::TinyScale));
+                    }
+                }
+            }
+        }
+    }
+    v.extend(special_cases());
+    v.retain(|c| c.validity().is_ok());
+    v
+}
+
+/// Hand-written degenerate inputs (witnesses of the findings of DESIGN section 7).
+pub fn special_cases() -> Vec<Case> {
+    let mut v = vec![];
+    let mk = |name: &str, dim: usize, periodic: bool, anchor: DVec3, width: DVec3, pts: Vec<DVec3>| Case {
+        family: "special".into(),
+        dim,
+        periodic,
+        anchor,
+        width,
+        pts,
+        mask: None,
+        origin: format!("corpus/special/{name}"),
+    };
+    // upstream test_non_perturbed_z: 3x3 columns? (perturbed_plane with pert 0): generators on a regular grid in a flat box
+    {
+        let anchor = DVec3::ZERO;
+        let width = DVec3::new(30., 4.6, 0.29);
+        let count = 10;
+        let mut pts = vec![];
+        for i in 0..count {
+            for j in 0..count {
+                pts.push(anchor + width * DVec3::new((i as f64 + 0.5) / count as f64, (j as f64 + 0.5) / count as f64, 0.5));
+            }
+        }
+        v.push(mk("flat_grid_10x10", 3, false, anchor, width, pts));
+    }
+    // 4x4 columns, z in {0, 1, 1/2, 1/4}: generators on two opposite walls (witness of F4)
+    {
+        let mut pts = vec![];
+        for i in 0..4 {
+            for j in 0..4 {
+                pts.push(DVec3::new((i as f64 + 0.5) / 4., (j as f64 + 0.5) / 4., [0., 1., 0.5, 0.25][(i + j) % 4]));
+            }
+        }
+        v.push(mk("columns_4x4_on_walls", 3, false, DVec3::ZERO, DVec3::ONE, pts));
+    }
+    // bcc k x k x k with offset 1/4 of the lattice constant, non-periodic cube
+    for k in [2usize, 3] {
+        let mut pts = vec![];
+        let a = 1. / k as f64;
+        for i in 0..k {
+            for j in 0..k {
+                for l in 0..k {
+                    let o = DVec3::new(i as f64, j as f64, l as f64) * a;
+                    pts.push(o + DVec3::splat(0.25 * a));
+                    pts.push(o + DVec3::splat(0.75 * a));
+                }
+            }
+        }
+        v.push(mk(&format!("bcc_{k}"), 3, false, DVec3::ZERO, DVec3::ONE, pts.clone()));
+        v.push(mk(&format!("bcc_{k}_periodic"), 3, true, DVec3::ZERO, DVec3::ONE, pts));
+    }
+    // fcc with generators on the walls
+    {
+        let k = 2usize;
+        let a = 1. / k as f64;
+        let mut pts = vec![];
+        for i in 0..=k {
+            for j in 0..=k {
+                for l in 0..=k {
+                    let o = DVec3::new(i as f64, j as f64, l as f64) * a;
+                    pts.push(o);
+                    for d in [DVec3::new(0.5, 0.5, 0.), DVec3::new(0.5, 0., 0.5), DVec3::new(0., 0.5, 0.5)] {
+                        let q = o + d * a;
+                        if q.max_element() <= 1. {
+                            pts.push(q);
+                        }
+                    }
+                }
+            }
+        }
+        v.push(mk("fcc_2_on_walls", 3, false, DVec3::ZERO, DVec3::ONE, pts));
+    }
+    // three generators of the F3 witness and a single generator on a corner
+    v.push(mk("three_generators", 3, false, DVec3::ZERO, DVec3::ONE, vec![DVec3::new(0.25, 0.5, 0.5), DVec3::new(0.75, 0.5, 0.5), DVec3::new(0.5, 0.9, 0.5)]));
+    v.push(mk("single_on_corner", 3, false, DVec3::ZERO, DVec3::ONE, vec![DVec3::ZERO]));
+    v.push(mk("single_on_corner_periodic", 3, true, DVec3::ZERO, DVec3::ONE, vec![DVec3::ZERO]));
+    v.push(mk("two_on_opposite_corners", 3, false, DVec3::ZERO, DVec3::ONE, vec![DVec3::ZERO, DVec3::ONE]));
+    v.push(mk("sparse_periodic_1x2x2", 3, true, DVec3::ZERO, DVec3::new(1., 2., 2.), vec![DVec3::new(0.5, 0.5, 0.5), DVec3::new(0.5, 1.5, 0.5), DVec3::new(0.5, 0.5, 1.5), DVec3::new(0.5, 1.5, 1.5), DVec3::new(0.25, 1., 1.), DVec3::new(0.75, 1., 1.)]));
+    for c in v.iter_mut() {
+        c.dedup();
+    }
+    v
 }
 
 /// Masks of section 4.1
